@@ -790,7 +790,7 @@ func (i *interpreter) symFloatCmp(op token.Token, f *symFloat, other value, flip
 	if f.class == fNaN {
 		return op == token.NEQ
 	}
-	i.stub("comparison on a float parsed from symbolic text (free outcome)")
+	i.freeStub("comparison on a float parsed from symbolic text (free outcome)")
 	name := fmt.Sprintf("uf_fcmp_%d_%s_%v_%v", f.id, sanitize(op.String()), flipped, sanitize(fmt.Sprint(other)))
 	return i.boolVal(i.tt.Var(name, 0))
 }
